@@ -65,11 +65,11 @@ def norm(v):
 
 DICT_MUT = ["setitem", "delitem", "pop", "popitem", "clear", "update", "update_pairs", "update_kwargs",
             "setdefault", "reset"]
-DICT_READ = ["getitem", "get", "contains", "len", "iter", "keys", "values", "items", "call", "eq", "ne", "repr",
+DICT_READ = ["getitem", "get", "contains", "len", "iter", "list", "keys", "values", "items", "call", "eq", "ne", "repr",
              "str"]   # ("getattr" is generated explicitly for attribute-access families)
 LIST_MUT = ["setitem", "delitem", "insert", "append", "extend", "iadd", "remove", "pop", "reverse", "clear",
             "reset"]
-LIST_READ = ["getitem", "len", "iter", "reversed", "contains", "index", "count", "call", "eq", "ne", "lt", "le",
+LIST_READ = ["getitem", "len", "iter", "list", "reversed", "contains", "index", "count", "call", "eq", "ne", "lt", "le",
              "gt", "ge", "repr", "str"]
 
 
@@ -120,7 +120,7 @@ def _model_apply(c, name, a):
             return a[0] in c
         if name == "len":
             return len(c)
-        if name in ("iter", "keys"):
+        if name in ("iter", "list", "keys"):
             return list(c)
         if name == "values":
             return list(c.values())
@@ -187,7 +187,7 @@ def _model_apply(c, name, a):
             return c[a[0]]
         if name == "len":
             return len(c)
-        if name == "iter":
+        if name in ("iter", "list"):
             return list(c)
         if name == "reversed":
             return list(reversed(c))
@@ -267,6 +267,8 @@ def _lib_apply(n, name, a, attr):
         return len(n)
     if name == "iter":
         return list(iter(n))
+    if name == "list":
+        return list(n)       # iterator + length hint: calls __iter__ AND __len__ (two loads)
     if name == "keys":
         return list(n.keys())
     if name == "values":
@@ -365,7 +367,7 @@ def results_agree(name, kind, lib_res, mod_res):
         if isinstance(lib_res, Raised):
             return f"raised {lib_res.cls.__name__}({lib_res.exc}) where the built-in returns {mod_res!r}"
         return f"returned {lib_res!r} where the built-in raises {mod_res.cls.__name__}"
-    if kind == "dict" and name in ("iter", "keys", "values", "items"):
+    if kind == "dict" and name in ("iter", "list", "keys", "values", "items"):
         a = sorted(lib_res, key=_sort_key) if isinstance(lib_res, list) else lib_res
         b = sorted(mod_res, key=_sort_key)
         if same(a, b):
